@@ -1,5 +1,6 @@
 """Further native harnesses (real CasADi, real rockit)."""
 import contextlib
+import traceback
 import io
 import re
 from fractions import Fraction
@@ -432,3 +433,55 @@ def reinterpret_probe(p):
         return dict(status="confirmed", failing_input=dict(shape=shape, coefficients=[v.tolist() for v in vals]),
                     observed=dict(s=S.tolist(), bernstein_expansion_of_rows=got.tolist()), expected=dict(rhs_minus_lhs_on_the_step=want.tolist()))
     return dict(status="not-reproduced", detail="rows expand to rhs - lhs at %d points (%d rows)" % (len(S), n))
+
+
+def task_probe(p):
+    """re-execute a bounded task function natively (real CasADi, real rockit): see replay/native_shim.py"""
+    import importlib
+    from replay import native_shim
+    native_shim.install()
+    try:
+        mod = importlib.import_module(p["module"])
+        tasks = mod.tasks(p.get("tier", "quick"), **p.get("tasks_kw", {}))
+        t = next((t for t in tasks if t.name == p["task"]), None)
+        if t is None and p.get("tier", "quick") == "quick":
+            tasks = mod.tasks("thorough", **p.get("tasks_kw", {}))
+            t = next((t for t in tasks if t.name == p["task"]), None)
+        if t is None:
+            return dict(status="error", detail="task %s not found in %s" % (p["task"], p["module"]))
+        c = native_shim.reset()
+        partial = None
+        try:
+            with contextlib.redirect_stdout(io.StringIO()):
+                t.fn()
+        except native_shim.NotReplayable as e:
+            partial = "task stops being replayable at: %s" % e
+        except (AttributeError, TypeError, NotImplementedError) as e:
+            partial = "task uses an engine-only entry point natively: %s: %s" % (type(e).__name__, str(e)[:200])
+    except Exception as e:
+        return dict(status="error", detail="".join(traceback.format_exception(type(e), e, e.__traceback__))[-1200:])
+    want = p.get("obligation")
+    seen = [o for o in c.obligations if o.name == want]
+    refuted = [o for o in c.obligations if o.status == "refuted"]
+    same = [o for o in refuted if o.name == want]
+    if same or (refuted and not seen):
+        o = (same or refuted)[0]
+        return dict(status="confirmed", failing_input=dict(task=p["task"], how="the task's specification built through rockit's public API with the fixed polynomial user functions of contracts/backend.py"),
+                    natively_refuted_obligation=o.name, observed=o.detail, n_refuted_natively=len(refuted), n_evaluated_natively=len(c.obligations))
+    if seen:
+        return dict(status="not-reproduced", detail="obligation holds natively (%d obligations evaluated, %d refuted)" % (len(c.obligations), len(refuted)))
+    return dict(status="error", detail="obligation not reached natively (%d evaluated); %s" % (len(c.obligations), partial))
+
+
+def colloc_probe(p):
+    """C02/C03/C05: the collocation data DirectCollocation.__init__ stores, recomputed on the real code"""
+    from replay import colloc_tables
+    want = p.get("obligation", "")
+    for r in colloc_tables.main():
+        name = "direct_collocation:DirectCollocation.__init__:ensures:%s[d=%d,%s]" % (r["what"], r["degree"], r["scheme"])
+        if name == want:
+            if r["ok"]:
+                return dict(status="not-reproduced", detail=r.get("detail"))
+            return dict(status="confirmed", failing_input=dict(call="DirectCollocation(degree=%d, scheme=%r) after building the methods of the other degrees and schemes in the same process" % (r["degree"], r["scheme"])),
+                        observed=r.get("detail"), expected=r["what"])
+    return dict(status="error", detail="no such table obligation: %s" % want)
